@@ -9,6 +9,8 @@ UNI = re.compile(r"^(UnionArray8_(32|U32|64)|UnionArrayOf<.*>)$")
 # methods of the content whose result can be a node of any kind (field projection exposes whatever the record holds;
 # getitem_next descends through the slice): an option node wrapped around such a result may become option-in-option / indexed-in-option
 KIND_CHANGING = ("getitem_field", "getitem_fields", "getitem_next", "getitem_next_jagged")
+# carry(index, allow_lazy) with allow_lazy not literally false may return IndexedArray64(index, content) instead of a carried copy
+# (RecordArray::carry does): it changes the node kind too
 
 
 def _content_arg(n):
@@ -19,7 +21,7 @@ def _content_arg(n):
 
 
 def rule_canon(rep, fb, floor=15):
-    r = rep.rule("CANON.simplify-after-projection", "an option/indexed node constructed around the result of content->getitem_field(s) / getitem_next / getitem_next_jagged (whose node kind is arbitrary) "
+    r = rep.rule("CANON.simplify-after-projection", "an option/indexed node constructed around the result of content->getitem_field(s) / getitem_next / getitem_next_jagged / carry(.., allow_lazy != false) (whose node kind is arbitrary) "
                  "is passed through simplify_optiontype() before it is returned (no option-in-option or indexed-in-option results, which the validity check rejects)", floor=floor)
     for f in fb.lib_funcs():
         if "ContentPtr" not in f["ret"] or not (f["file"].startswith("src/libawkward/array") or f["file"].endswith("Content.cpp")):
@@ -39,7 +41,8 @@ def rule_canon(rep, fb, floor=15):
                             src = ds[0][3] if len(ds) == 1 and ds[0][3] is not None else ca
                         while src and src[0] == "deref":
                             src = src[1]
-                        if not (src and src[0] == "mcall" and src[1] in KIND_CHANGING):
+                        lazy_carry = bool(src and src[0] == "mcall" and src[1] == "carry" and len(src[4]) >= 2 and cexpr(src[4][1]) != ("const", 0))
+                        if not (src and src[0] == "mcall" and (src[1] in KIND_CHANGING or lazy_carry)):
                             continue
                         cnt[src[1]] = cnt.get(src[1], 0) + 1
                         simp = bool(find_all((s,), lambda m: m[0] == "mcall" and m[1] == "simplify_optiontype" and find_all((m[3],), lambda k: k is n)))
